@@ -32,6 +32,11 @@ pub struct BitString { _o: u8 }
 pub struct Constructed { _o: u8 }
 impl Constructed {
     pub uninterp spec fn names(&self) -> Seq<Seq<u8>>;
+    /// what the stream holds next: an IA5String (and which) / a BIT STRING, and the stream behind that value
+    pub uninterp spec fn has_ia5(&self) -> bool;
+    pub uninterp spec fn next_ia5(&self) -> Seq<u8>;
+    pub uninterp spec fn has_bits(&self) -> bool;
+    pub uninterp spec fn behind(&self) -> Constructed;
     #[verifier::external_body]
     pub fn content_err<T>(&self, err: T) -> (r: DecodeError) { unimplemented!() }
 }
@@ -40,7 +45,9 @@ impl Ia5String {
     #[verifier::external_body]
     pub fn take_from(cons: &mut Constructed) -> (r: Result<Ia5String, DecodeError>)
         ensures
-            r.is_ok() ==> final(cons).names() == old(cons).names().push(r->Ok_0.text()),
+            r.is_ok() <==> old(cons).has_ia5(),
+            r.is_ok() ==> r->Ok_0.text() == old(cons).next_ia5() && final(cons).names() == old(cons).names().push(r->Ok_0.text())
+                && final(cons).has_bits() == old(cons).behind().has_bits(),
             r.is_err() ==> final(cons).names() == old(cons).names(),
     { unimplemented!() }
     #[verifier::external_body]
@@ -49,12 +56,18 @@ impl Ia5String {
 impl BitString {
     #[verifier::external_body]
     pub fn skip_in(cons: &mut Constructed) -> (r: Result<(), DecodeError>)
-        ensures final(cons).names() == old(cons).names() { unimplemented!() }
+        ensures final(cons).names() == old(cons).names(), r.is_ok() <==> old(cons).has_bits() { unimplemented!() }
+    /// bcder: skip_in and take_from accept the same BIT STRING encodings (skip_in is take_from without keeping the value)
     #[verifier::external_body]
     pub fn take_from(cons: &mut Constructed) -> (r: Result<BitString, DecodeError>)
-        ensures final(cons).names() == old(cons).names() { unimplemented!() }
+        ensures final(cons).names() == old(cons).names(), r.is_ok() <==> old(cons).has_bits() { unimplemented!() }
     #[verifier::external_body]
     pub fn octet_bytes(&self) -> (r: Bytes) { unimplemented!() }
+    /// further bcder accessors (no contract), present so that an edit using them is checked instead of failing to compile
+    #[verifier::external_body]
+    pub fn unused(&self) -> (r: u8) { unimplemented!() }
+    #[verifier::external_body]
+    pub fn octet_len(&self) -> (r: usize) { unimplemented!() }
 }
 
 //@item src/repository/manifest.rs :: pub struct FileAndHash<F, H> pubfields
@@ -76,6 +89,11 @@ pub open spec fn took_valid_name(before: Constructed, after: Constructed) -> boo
     &&& valid_mft_name(after.names().last())
 }
 
+/// the entry the stream holds next is acceptable: an IA5String that is a valid file name, then a BIT STRING
+pub open spec fn entry_ok(c: Constructed) -> bool {
+    c.has_ia5() && valid_mft_name(c.next_ia5()) && c.behind().has_bits()
+}
+
 impl FileAndHash<Bytes, Bytes> {
     // contract link: proved in unit mft_name for names of any length (R12: the `&Bytes -> &[u8]` deref coercion at
     // the call is specialised to a `&Bytes` parameter whose view is the octets)
@@ -89,7 +107,11 @@ impl FileAndHash<Bytes, Bytes> {
     fn skip_entry(cons: &mut Constructed) -> Result<(), DecodeError>
     //@/sig
     //@spec
-        ensures r.is_ok() ==> took_valid_name(*old(cons), *final(cons)),
+        ensures
+            r.is_ok() ==> took_valid_name(*old(cons), *final(cons)),
+            // accepted exactly when a valid name and a BIT STRING are there - the same condition as take_entry below,
+            // so the walk at decode time and the iterator agree on every entry
+            r.is_ok() <==> entry_ok(*old(cons)),
     //@/spec
     //@end
 
@@ -99,7 +121,9 @@ impl FileAndHash<Bytes, Bytes> {
     fn take_entry(cons: &mut Constructed) -> Result<Self, DecodeError>
     //@/sig
     //@spec
-        ensures r.is_ok() ==> took_valid_name(*old(cons), *final(cons)) && r->Ok_0.file@ == final(cons).names().last(),
+        ensures
+            r.is_ok() ==> took_valid_name(*old(cons), *final(cons)) && r->Ok_0.file@ == final(cons).names().last(),
+            r.is_ok() <==> entry_ok(*old(cons)),
     //@/spec
     //@end
 }
